@@ -122,72 +122,8 @@ func c12(r *core.Report) {
 
 	// ---- C12-ERR-NONNIL
 	r.Rule("C12-ERR-NONNIL", "every store to TellHub.err/AskHub.err stores a provably non-nil error, before close(closed); closed cases return it", 8)
-	for _, fld := range []*types.Var{h.tellErr, h.askErr} {
-		n := 0
-		for _, fn := range p.ModFuncs {
-			for _, st := range core.StoresToField(fn, fld) {
-				n++
-				c := fmt.Sprintf("%s store %s", core.FnName(fn), fld.Name())
-				ok := nn.At(st.Val, st)
-				r.Check(ok, "C12-ERR-NONNIL", c, p.Pos(st.Pos()),
-					"stored value is non-nil on every path (nil replaced by the closed sentinel)",
-					"the close reason stored may be nil: Receive/ServeAsk/Deliver on the closed hub then return nil (success) instead of an error")
-				// store precedes close(closed) in the same function
-				var closes []ssa.Instruction
-				for _, in := range core.AllInstrs(fn) {
-					if ci, k := in.(ssa.CallInstruction); k && core.IsBuiltin(ci.Common(), "close") {
-						closes = append(closes, in)
-					}
-				}
-				for _, cl := range closes {
-					reach := core.Reach(fn, nil, nil, func(in ssa.Instruction) bool { return in == st })
-					r.Check(!reach[cl], "C12-ERR-NONNIL", c+" before close", p.Pos(cl.Pos()),
-						"the reason is stored before the closed signal is raised", "closed signal can be raised before the reason is stored")
-				}
-			}
-		}
-		if n == 0 {
-			r.Fail("no store to %s found", fld.Name())
-		}
-	}
-	for _, name := range []string{"TellHub.Receive", "TellHub.Deliver", "TellHub.checkClosed", "AskHub.ServeAsk", "AskHub.Deliver", "AskHub.checkClosed", "Queue.Receive"} {
-		fn := h.fns[name]
-		closed := h.closedFieldFor(fn)
-		errF := h.errFieldFor(fn)
-		for _, sel := range core.AllSelects(fn) {
-			for i, st := range sel.States {
-				cr := core.ClassifyChan(st.Chan)
-				if cr.Kind != "field" || !core.SameField(cr.Field, closed) {
-					continue
-				}
-				blk := core.SelectCaseBlock(sel, i)
-				if blk == nil {
-					r.Undecided("C12-ERR-NONNIL", core.FnName(fn)+" closed-case", p.Pos(sel.Pos()), "cannot find the case block")
-					continue
-				}
-				// returns reachable from the case block without crossing another select
-				reach := core.ReachAt(fn, blk.Instrs[0], nil, func(in ssa.Instruction) bool { _, k := in.(*ssa.Select); return k })
-				for _, ret := range core.Returns(fn) {
-					if !reach[ret] {
-						continue
-					}
-					ei := len(ret.Results) - 1
-					okAll := true
-					for _, v := range core.ReturnValues(ret, ei) {
-						if f, _ := core.FieldRead(v); errF != nil && core.SameField(f, errF) {
-							continue
-						}
-						if nn.At(v, ret) {
-							continue
-						}
-						okAll = false
-					}
-					r.Check(okAll, "C12-ERR-NONNIL", core.FnName(fn)+" closed-case return", p.Pos(ret.Pos()),
-						"returns the stored close reason or a non-nil sentinel", "closed case may return a nil error")
-				}
-			}
-		}
-	}
+	ruleHubErrNonNil(r, h, nn, "C12-ERR-NONNIL", []*types.Var{h.tellErr, h.askErr},
+		[]string{"TellHub.Receive", "TellHub.Deliver", "TellHub.checkClosed", "AskHub.ServeAsk", "AskHub.Deliver", "AskHub.checkClosed", "Queue.Receive"})
 
 	// ---- C12-OWNED-CLOSED
 	r.Rule("C12-OWNED-CLOSED", "every TellHub/AskHub/Queue field of a module struct is closed on a path reachable from the owner's Close", 14)
@@ -285,7 +221,10 @@ func c12(r *core.Report) {
 
 	// ---- C12-INNER-CLOSED
 	r.Rule("C12-INNER-CLOSED", "Close of a wrapping swarm reaches Close of the inner swarm it owns", 5)
-	type innerSlot struct{ rel, typ, field string; must bool }
+	type innerSlot struct {
+		rel, typ, field string
+		must            bool
+	}
 	for _, s := range []innerSlot{
 		{"s/fragswarm", "swarm", "Swarm", true},
 		{"p/mbapp", "Swarm", "inner", true},
@@ -563,4 +502,78 @@ func composeUses(p *core.Prog, owner *types.Named) []composeUse {
 		}
 	}
 	return out
+}
+
+// ruleHubErrNonNil: every store to the hub's err field stores a provably
+// non-nil value, before the closed signal is raised; every return taken on a
+// closed case returns that field or a non-nil sentinel.
+func ruleHubErrNonNil(r *core.Report, h *hubSlots, nn *core.NonNil, ruleID string, fields []*types.Var, fnNames []string) {
+	p := r.P
+	for _, fld := range fields {
+		n := 0
+		for _, fn := range p.ModFuncs {
+			for _, st := range core.StoresToField(fn, fld) {
+				n++
+				c := fmt.Sprintf("%s store %s", core.FnName(fn), fld.Name())
+				ok := nn.At(st.Val, st)
+				r.Check(ok, ruleID, c, p.Pos(st.Pos()),
+					"stored value is non-nil on every path (nil replaced by the closed sentinel)",
+					"the close reason stored may be nil: Receive/ServeAsk/Deliver on the closed hub then return nil (success) instead of an error")
+				// store precedes close(closed) in the same function
+				var closes []ssa.Instruction
+				for _, in := range core.AllInstrs(fn) {
+					if ci, k := in.(ssa.CallInstruction); k && core.IsBuiltin(ci.Common(), "close") {
+						closes = append(closes, in)
+					}
+				}
+				for _, cl := range closes {
+					reach := core.Reach(fn, nil, nil, func(in ssa.Instruction) bool { return in == st })
+					r.Check(!reach[cl], ruleID, c+" before close", p.Pos(cl.Pos()),
+						"the reason is stored before the closed signal is raised", "closed signal can be raised before the reason is stored")
+				}
+			}
+		}
+		if n == 0 {
+			r.Fail("no store to %s found", fld.Name())
+		}
+	}
+	for _, name := range fnNames {
+		fn := h.fns[name]
+		closed := h.closedFieldFor(fn)
+		errF := h.errFieldFor(fn)
+		for _, sel := range core.AllSelects(fn) {
+			for i, st := range sel.States {
+				cr := core.ClassifyChan(st.Chan)
+				if cr.Kind != "field" || !core.SameField(cr.Field, closed) {
+					continue
+				}
+				blk := core.SelectCaseBlock(sel, i)
+				if blk == nil {
+					r.Undecided(ruleID, core.FnName(fn)+" closed-case", p.Pos(sel.Pos()), "cannot find the case block")
+					continue
+				}
+				// returns reachable from the case block without crossing another select
+				reach := core.ReachAt(fn, blk.Instrs[0], nil, func(in ssa.Instruction) bool { _, k := in.(*ssa.Select); return k })
+				for _, ret := range core.Returns(fn) {
+					if !reach[ret] {
+						continue
+					}
+					ei := len(ret.Results) - 1
+					okAll := true
+					for _, v := range core.ReturnValues(ret, ei) {
+						if f, _ := core.FieldRead(v); errF != nil && core.SameField(f, errF) {
+							continue
+						}
+						if nn.At(v, ret) {
+							continue
+						}
+						okAll = false
+					}
+					r.Check(okAll, ruleID, core.FnName(fn)+" closed-case return", p.Pos(ret.Pos()),
+						"returns the stored close reason or a non-nil sentinel", "closed case may return a nil error")
+				}
+			}
+		}
+	}
+
 }
